@@ -125,6 +125,86 @@ def gen_ucve_connected(rng):
     return "ucve %s %s 1 %s" % (L(A), logtA, fmt_rules(rules))
 
 
+def gen_ucve_mixed(rng):
+    """several disconnected components, tables with unmentioned (implicitly (0,0)) local actions, a mix of
+    'bad' entries (very negative mean, large bonus) and mean-vs-bonus trade-offs: the regime where the
+    bounds carried over from finished components and the implicit zero entries interact"""
+    import itertools
+    n = rng.randint(2, 5)
+    A = [rng.choice([2, 2, 2, 3]) for _ in range(n)]
+    agents = list(range(n)); rng.shuffle(agents)
+    k = rng.randint(2, min(3, n))
+    cuts = sorted(rng.sample(range(1, n), k - 1))
+    parts = [sorted(agents[i:j]) for i, j in zip([0] + cuts, cuts + [n])]
+    rules = []
+
+    def entry(bad):
+        if bad:
+            return "%d %d" % (-rng.choice([3, 10, 50, 100]), rng.choice([4, 9, 25, 50]))
+        style = rng.random()
+        if style < 0.5:      # trade-off: decent mean / no bonus  versus  low mean / some bonus
+            return rng.choice(["%d/16 0" % rng.randint(8, 20), "0 %d/4" % rng.randint(1, 8),
+                               "%d/16 %d/16" % (rng.randint(0, 16), rng.randint(0, 32))])
+        return "%s %s" % (dy(rng, -8, 16, 16), dy(rng, 0, 32, 16))
+
+    for part in parts:
+        ksets = []
+        if len(part) == 1:
+            ksets = [part]
+        else:
+            for i in range(1, len(part)):
+                ksets.append(sorted([part[i], part[rng.randrange(i)]]))
+            if rng.random() < 0.3:
+                ksets.append([rng.choice(part)])
+        bad_part = rng.random() < 0.5
+        for ks in ksets:
+            locs = list(itertools.product(*[range(A[x]) for x in ks]))
+            keep = [l for l in locs if rng.random() < 0.6] or [rng.choice(locs)]
+            if len(keep) == len(locs) and rng.random() < 0.7:
+                keep.pop(rng.randrange(len(keep)))            # leave at least one action unmentioned
+            for vs in keep:
+                rules.append((ks, list(vs), entry(bad_part and rng.random() < 0.8)))
+    rng.shuffle(rules)
+    logtA = rng.choice(["1/2", "2", "2", "8", "25/2"])
+    return "ucve %s %s 1 %s" % (L(A), logtA, fmt_rules(rules))
+
+
+def gen_ucve_holes_components(rng):
+    """directed at the bookkeeping of finished components: one small component whose mentioned actions
+    are all bad (very negative mean, large bonus) and which has unmentioned actions (so the optimum takes an
+    implicit (0,0) there), next to a chain of >= 2 agents whose entries trade mean against bonus"""
+    import itertools
+    nb = rng.choice([1, 1, 2])                 # agents of the bad component
+    nt = rng.choice([2, 2, 3])                 # agents of the trade-off chain
+    n = nb + nt
+    perm = list(range(n)); rng.shuffle(perm)
+    bad, chain = sorted(perm[:nb]), perm[nb:]
+    A = [2] * n
+    for x in range(n):
+        if rng.random() < 0.25:
+            A[x] = 3
+    rules = []
+    ks = bad
+    locs = list(itertools.product(*[range(A[x]) for x in ks]))
+    rng.shuffle(locs)
+    for vs in locs[:rng.randint(1, len(locs) - 1)]:      # at least one local action stays unmentioned
+        rules.append((ks, list(vs), "%d %d" % (-rng.choice([20, 100]), rng.choice([16, 25, 50, 64]))))
+    for i in range(1, len(chain)):
+        ks = sorted([chain[i - 1], chain[i]])
+        locs = list(itertools.product(*[range(A[x]) for x in ks]))
+        for vs in locs:
+            r = rng.random()
+            if r < 0.25:
+                continue                                  # unmentioned
+            if r < 0.6:
+                rules.append((ks, list(vs), "%d/32 0" % rng.randint(8, 40)))          # mean, no bonus
+            else:
+                rules.append((ks, list(vs), "%d/32 %d/16" % (rng.randint(0, 8), rng.randint(4, 40))))   # bonus
+    rng.shuffle(rules)
+    logtA = rng.choice(["1/2", "2", "2", "8"])
+    return "ucve %s %s 1 %s" % (L(A), logtA, fmt_rules(rules))
+
+
 def gen_case(rng, kind):
     if kind in ("move", "ucve"):
         A = gen_A(rng, maxn=5, maxa=3)
@@ -164,8 +244,12 @@ def gen_case(rng, kind):
         pay = lambda r: "%d %s" % (nobj, " ".join(dy(r, -8, 8) for _ in range(nobj)))
         sets = [(gen_complete_rules(rng, A, pool, pay) if rng.random() < 0.6 else gen_rules(rng, A, pool, pay, maxr=7)) for _ in range(nsets)]
         return "move %s %d %d %s" % (L(A), nobj, nsets, " ".join(fmt_rules(s) for s in sets))
-    if kind == "ucve" and rng.random() < 0.35:
+    if kind == "ucve" and rng.random() < 0.3:
         return gen_ucve_connected(rng)
+    if kind == "ucve" and rng.random() < 0.35:
+        return gen_ucve_mixed(rng)
+    if kind == "ucve" and rng.random() < 0.5:
+        return gen_ucve_holes_components(rng)
     if kind == "ucve":
         logtA = rng.choice(["1/2", "1", "2", "4", "8", "25/2"])
         lo = -16 if rng.random() < 0.3 else 0
@@ -178,5 +262,5 @@ def gen_case(rng, kind):
 def gen(rng, tier):
     n = {"quick": 1500, "thorough": 12000, "search": 4000}[tier]
     kinds = ["ve"] * 9 + ["ls", "ls", "mp", "mp", "rils", "rils", "move", "move", "ucve", "ucve",
-                          "vemix", "lsmix", "mpmix", "rilsmix"]
+                          "vemix", "lsmix", "mpmix", "rilsmix", "ucve"]
     return [gen_case(rng, rng.choice(kinds)) for _ in range(n)]
